@@ -1600,6 +1600,16 @@ def gen_c10_spec(rng: random.Random) -> Dict[str, Any]:
                 b0 = s_["beh"]
                 s_["beh"] = [dict(b0, out=rng.choice(["raise:ValueError", "ok", "raise:KeyError"])) for _ in range(3)]
                 s_["beh"][0]["out"] = "raise:ValueError"
+    elif rng.random() < 0.2:
+        # task functions that hand their message back to the broker (Context.requeue): the next delivery is an
+        # execution like any other
+        spec["kick_fail"] = []
+        for s_ in sends:
+            if s_["task"] == "t_async" and "labels" not in s_ and not s_.get("via_broker2") and not s_.get("bad_arg") and rng.random() < 0.6:
+                s_["task"] = "t_ctx"
+                s_["beh"] = [dict(s_["beh"], out="requeue")] * rng.choice([1, 1, 2]) + [s_["beh"]]
+    if rng.random() < 0.35:
+        spec["worker_flag"] = True  # the broker object is flagged as living in a worker process (what the CLI does)
     return spec
 
 
